@@ -1011,7 +1011,7 @@ func (e *env) runArch(c archCase) {
 				}
 			}()
 			err := verifhooks.C15ArchiveIndex(verifhooks.C15ArchiveOptions{Archive: path, Name: "repo", Branch: "main", Strip: c.Strip},
-				index.Options{IndexDir: idx, SizeMax: c.SizeMax, DisableCTags: true})
+				index.Options{IndexDir: idx, SizeMax: c.SizeMax, DisableCTags: true, ShardMax: 1 << 20})
 			if err != nil {
 				cls, errText = "err", err.Error()
 			}
@@ -1192,6 +1192,11 @@ func main() {
 		}
 	}
 	r := gen.NewRand(f.Seed)
+	t0 := time.Now()
+	phase := func(name string) {
+		fmt.Fprintf(os.Stderr, "phase %s done at %.1fs\n", name, time.Since(t0).Seconds())
+	}
+	defer phase("all")
 	// unit correspondences: ignore matcher, stripComponents, member filter
 	for i := 0; i < f.N(800, 15000); i++ {
 		c := genDirCase(r, "walk")
@@ -1213,10 +1218,12 @@ func main() {
 	for i := 0; i < f.N(60, 600); i++ {
 		e.runArch(genArchCase(r, "members"))
 	}
+	phase("units")
 	// the walk alone (real newIgnoreMatcher + fileAggregator.add under filepath.Walk)
 	for i := 0; i < f.N(200, 1500); i++ {
 		e.runDir(genDirCase(r, "walk"))
 	}
+	phase("walk")
 	// end to end: real indexArg / archive.Index, shards read back
 	for i := 0; i < f.N(50, 400); i++ {
 		c := genDirCase(r, "dir")
